@@ -564,6 +564,21 @@ theorem transpose2_inverse_partial {cj : K → K} (hc1 : cj 1 = 1) (a b : Nat) (
   · exact hi
 
 
+/-- **chains**: applying a composed COO operator is applying one after the other (well-formed factors, matching sizes) -/
+theorem coo_comp_apply (M N : Coo K) (hM : M.wf = true) (hN : N.wf = true) (hdim : N.rows = M.cols)
+    (x : Nat → K) (r : Nat) : apply (comp M N) x r = apply M (apply N x) r := apply_comp M N hM hN hdim x r
+
+/-- **per-axis loops** (FieldZeroPadder, RegriddingOperator, FFTShiftOperator): the composed operator acts like the
+    successive 1-D operators on the evolving array, each embedded with `onAxis` (whose fibre-wise action is
+    `onAxis_spec` and whose 1-D specs are `pad1_*_spec`, `regrid1_spec`, `shift1_inverse`) -/
+theorem alongAxes_spec (sh : List Nat) (d0 : Nat) (ops : List (Option (Coo K))) (hok : alongOk sh d0 ops)
+    (x : Nat → K) (r : Nat) (hr : r < (alongAxes sh d0 ops).rows) :
+    apply (alongAxes sh d0 ops) x r = alongAxesFn sh d0 ops x r := alongAxes_apply sh d0 ops hok x r hr
+
+-- non-vacuity: the side condition holds for a concrete 2-axis central padder (3,2) → (5,2) → (5,4)
+example : alongOk (K := CQ) [3, 2] 0 [some (pad1 3 5 true), some (pad1 2 4 true)] :=
+  ⟨by decide, by decide, by decide, by decide, by decide, by decide, trivial⟩
+
 /-! ### identity-type and block-type operators, einsum -/
 
 /-- fields on a DomainTuple may be indexed at sub-domain granularity: raveling all axes = raveling the per-sub-domain
